@@ -304,7 +304,10 @@ Fixpoint next_element (fuel : nat) (pj : pjson) (o : cont) : outcome (cont * opt
             Ok ({| c_len := c_len o; c_off := off3 + esize |},
                 Some (name, {| i_len := off3 + esize; i_off := off3; i_add := add; i_cur := cur; i_t := t2 |}, TagToType_ref t2))
       else if (t =? TagObjectEnd)%N then Ok (o, None)
-      else if (t =? TagNop)%N then next_element f pj {| c_len := c_len o; c_off := c_off o + Z.of_N (word_val v) |}
+      else if (t =? TagNop)%N then
+        (* a nop whose skip count is not positive is an error (fix F17) *)
+        if (word_val v =? 0)%N then Err
+        else next_element f pj {| c_len := c_len o; c_off := c_off o + Z.of_N (word_val v) |}
       else Err
   end.
 
